@@ -680,6 +680,7 @@ Outcome run_case(Case &c, const RunnerOpts &ro) {
         g_sig_suffix = std::string(stored_singular ? "@structurally_singular_pattern" : "") + (op.ienv[3] < op.ienv[2] ? "@maxsuper_lt_relax" : "");
         if (!g_sig_suffix.empty() && sim::result_fd >= 0) { std::string t = "T " + g_sig_suffix + "\n"; if (write(sim::result_fd, t.data(), t.size()) < 0) {} }
         if (op.ienv[3] < op.ienv[2]) out.probes["cfg_maxsuper_lt_relax"]++;
+        if (op.x.sym_mode) { g_sig_suffix += "@symmetric_mode"; out.probes["cfg_symmetric_mode"]++; }
         if (prec_is_complex(c.prec) && c.stype_nr && op.x.trans == 2 && (op.kind == OP_GSSVX || op.kind == OP_GSTRS || op.kind == OP_ROUTE)) { g_sig_suffix += "@complex_rowwise_conj"; out.probes["cfg_complex_rowwise_conj"]++; }
         if (op.dyn_snode) setenv("SuperLU_DYNAMIC_SNODE_STORE", "1", 1); else unsetenv("SuperLU_DYNAMIC_SNODE_STORE");
         bool factorizing = (op.kind == OP_GSSV) || (op.kind == OP_ROUTE) || (op.kind == OP_GSSVX && op.x.fact != 2);
@@ -750,11 +751,18 @@ Outcome run_case(Case &c, const RunnerOpts &ro) {
         bool a_same = drv.A_hash() == a_hash0;
         bool histlike = c.profile == "hist" || c.profile == "leak" || c.profile == "carry";
         if (op.kind == OP_DESTROY || op.kind == OP_ROUTE_FINALIZE) continue;
-        if ((c.profile == "svx" || histlike) && op.kind == OP_GSSVX) {
+        if ((c.profile == "svx" || c.profile == "sym" || histlike) && op.kind == OP_GSSVX) {
             if (op.x.nprocs <= 0) { out.probes["illegal_argument_calls"]++; if (info != -1) add_viol(out, "C15", "illegal_nprocs_not_reported", fmt("nprocs=%d info=%ld", op.x.nprocs, info), opi); continue; }
             if (op.x.lwork == -1) { out.probes["workspace_queries"]++; continue; }
             if (leakprof && op.x.lwork > 0 && info > n + 1) { out.probes["workspace_too_small_returns"]++; continue; }
             eval_svx(x, opi, op, xo, A_before, Bin, a_hash0, b_hash0, x_hash0, svx_state);
+            if (c.profile == "sym" && (info == 0 || info == n + 1)) {
+                // C16: every pivot is the original diagonal entry, i.e. the row permutation equals the (final) column permutation
+                std::vector<int> pr2 = drv.get_perm_r(), pc2 = drv.get_perm_c();
+                out.probes["sym_runs_checked"]++;
+                if (c.colperm == 2) { out.probes["sym_runs_mmd_at_plus_a"]++; if (pr2 != pc2) { int bad = 0; for (int i = 0; i < n; ++i) if (pr2[i] != pc2[i]) ++bad; add_viol(out, "C16", "off_diagonal_pivot_in_symmetric_mode", fmt("%d rows have perm_r != perm_c (u=0, row/column dominant values)", bad), opi); } }
+                else if (pr2 != pc2) out.probes["sym_other_ordering_offdiag"]++;
+            }
             if (op.x.refact && op.x.usepr && (info == 0 || info == n + 1)) eval_usepr(x, opi, op, pr_before);
             if (op.x.refact) out.probes["refactorizations"]++;
             if (op.x.fact == 2) out.probes["factored_calls"]++;
